@@ -272,7 +272,9 @@ class EqObligation(Obligation):
         return res
 
     def _run(self, res, seed):
-        b = self.build()
+        with LineCov() as lc0:              # constructors / factory functions of /repo run while the scenario is built
+            b = self.build()
+        _merge_lines(res, lc0.lines)
         fn, inputs, spec = b["fn"], b["inputs"], b["spec"]
         res["functions"] = list(b.get("functions", self.functions))
         syms = [JI.sym_input(i.name, tuple(i.shape), "bool" if i.kind == "bool" else "real") for i in inputs]
@@ -599,6 +601,9 @@ class FnObligation(Obligation):
 def _from_checker(e):
     """an exception counts as raised by the code under contract only if the innermost frame that
     is neither library code (site-packages) nor python's own lies in /repo; otherwise it is ours"""
+    from .opaque import CalleePrecondition
+    if isinstance(e, CalleePrecondition):
+        return False
     tb = e.__traceback__
     last = None
     while tb is not None:
